@@ -179,14 +179,14 @@ func smallU(r *rand.Rand) uint64 {
 }
 
 func genBytes(r *rand.Rand) string {
-	switch r.IntN(6) {
-	case 0:
+	switch r.IntN(14) {
+	case 0, 1:
 		return ""
-	case 1, 2:
+	case 2, 3, 4, 5:
 		return vh.Pick(r, smallIDs...)
-	case 3:
+	case 6, 7, 8:
 		return hex.EncodeToString(vh.Bytes(r, 1+r.IntN(12)))
-	case 4:
+	case 9:
 		return hex.EncodeToString(vh.Bytes(r, 40+r.IntN(100)))
 	default:
 		return hex.EncodeToString([]byte(fmt.Sprintf("u%d", r.IntN(50))))
@@ -199,7 +199,7 @@ func genRecord(r *rand.Rand, epoch, index uint64) recordIn {
 	if r.IntN(3) == 0 {
 		rec.Index = 0
 	}
-	switch r.IntN(40) {
+	switch r.IntN(120) {
 	case 0:
 		rec.ID = 0
 	case 1:
@@ -208,7 +208,7 @@ func genRecord(r *rand.Rand, epoch, index uint64) recordIn {
 		rec.Epoch = epoch + 1
 	case 3:
 		rec.TS = vh.Pick(r, int64(0), -1, math.MinInt64)
-	case 4:
+	case 4, 5:
 		rec.TS = math.MaxInt64
 	}
 	return rec
@@ -299,7 +299,7 @@ func gen(r *rand.Rand, tier string, i int) input {
 	m.PreviousIndex = m.BaseOffset
 	m.LastOffset = m.BaseOffset + uint64(n)
 	// malformed stream
-	switch r.IntN(30) {
+	switch r.IntN(60) {
 	case 0:
 		m.Version = vh.Pick(r, uint16(0), 2, 65535)
 	case 1:
@@ -334,7 +334,7 @@ func gen(r *rand.Rand, tier string, i int) input {
 			in.Records[1].Index++
 		}
 	}
-	np := 3 + r.IntN(4)
+	np := 2 + r.IntN(4)
 	for k := 0; k < np; k++ {
 		in.Ops = append(in.Ops, genProbe(r, max(n, 1)))
 	}
@@ -543,7 +543,11 @@ func run(in input) vh.Result {
 		d := quorumlog.VerifDigestProposalEntry(e, r)
 		pre := rebuildPreimage(e, r)
 		preOK := sha256.Sum256(pre) == d
-		probes = append(probes, vh.App("Probe", coqEntry(e), coqRecord(r), vh.B(v), vh.Hex(d[:]), vh.Hex(pre), vh.B(preOK)))
+		coqPre := vh.None()
+		if len(probes) == 0 {
+			coqPre = vh.Some(vh.Hex(pre))
+		}
+		probes = append(probes, vh.App("Probe", coqEntry(e), coqRecord(r), vh.B(v), vh.Hex(d[:]), coqPre, vh.B(preOK)))
 		obsProbes = append(obsProbes, map[string]any{"field": p.Field, "verify": v, "digest": hex.EncodeToString(d[:]), "pre_ok": preOK})
 		cl := p.Field
 		if p.Rehash {
